@@ -36,11 +36,11 @@ def genuine_datagram(tx, seq_pkt, seq_msg, payload, now):
 
 
 # ------------------------------------------------------------------ L4.1
-def l41():
+def l41(rx_is_server=True):
     now = symreal('now', lo=10, hi=4000000000)
     clock = proto.clock_at(now)
-    rx = proto.mk_base(server=True, clock=clock)
-    tx = proto.mk_base(server=False, clock=clock)
+    rx = proto.mk_base(server=rx_is_server, clock=clock)
+    tx = proto.mk_base(server=not rx_is_server, clock=clock)
     cur = symint('cur', 1, 65535)
     bits = symbv('bits', 32)
     rx.bitfield_pkt.current_seqnum = SeqNum(cur)
@@ -107,7 +107,7 @@ def replay_l41(cfg, m):
         d, ok, rx.last_recv_time != t_before, len(rx.incoming_messages))
 
 
-R.add('L4.1', l41, [{}], replay=replay_l41,
+R.add('L4.1', l41, [dict(rx_is_server=True), dict(rx_is_server=False)], replay=replay_l41,
       desc='genuine datagram already received (0..32767 datagrams ago) from an arbitrary window state: dropped whole',
       expect=['a duplicate datagram is rejected', 'a duplicate datagram has no other effect'],
       bounds='offset 0..32767 behind the newest datagram; arbitrary 32-bit window, clocks, pending table with one entry')
